@@ -112,11 +112,16 @@ def find (off : Nat) : List (Value N) → Res N
   | [_, _] => .error .wrongParameterType
   | _ => .error (.wrongParameterCount 2)
 
+/-- `ParseFloatError::to_string()` turned into a `NativeError` by `?` (`From<String>`): std has one text for the empty string and one for every other
+    rejected text -/
+def parseFloatError (s : Str) : NativeError :=
+  if s.isEmpty then custom "cannot parse float from empty string" else custom "invalid float literal"
+
 def float : List (Value N) → Res N
   | [.bool b] => .ok (.num (NumOps.ofBool b))
   | [.str s] => match NumOps.parse (N := N) s with
     | some x => .ok (.num x)
-    | none => .error (custom "invalid float literal")
+    | none => .error (parseFloatError s)
   | [.num x] => .ok (.num x)
   | [_] => .error .wrongParameterType
   | _ => .error (.wrongParameterCount 1)
